@@ -206,10 +206,12 @@ impl<E: Copy + Debug> Updatable<E> for GearTrain<'_, E> {
         match get1 {
             Some(datum1) => match get2 {
                 Some(datum2) => {
-                    if datum1.time >= datum2.time {
+                    //With equal times both sides already hold the same command; relaying it again
+                    //would write a scaled-and-scaled-back copy over the side it was issued on.
+                    if datum1.time > datum2.time {
                         let newdatum2 = datum1 * self.ratio;
                         self.term2.borrow_mut().set(newdatum2)?;
-                    } else {
+                    } else if datum2.time > datum1.time {
                         let newdatum1 = datum2 / self.ratio;
                         self.term1.borrow_mut().set(newdatum1)?;
                     }
